@@ -124,7 +124,7 @@ func runGenJobs(b *genBuild, tmpl genJob, workers int, timeout time.Duration) ([
 		j.Out = filepath.Join(b.Scratch, fmt.Sprintf("res-%s-%d.json", tmpl.Mode, w))
 		jf := filepath.Join(b.Scratch, fmt.Sprintf("job-%s-%d.json", tmpl.Mode, w))
 		writeJSON(jf, j)
-		jobs = append(jobs, workerRun{JobFile: jf, OutFile: j.Out, Env: []string{"GOMAXPROCS=1"}})
+		jobs = append(jobs, workerRun{JobFile: jf, OutFile: j.Out, Env: []string{"GOMAXPROCS=" + envOr("VERIF_WORKER_GOMAXPROCS", "1")}})
 	}
 	errs := runWorkers(b.Gensim, jobs, timeout)
 	var out []genResult
